@@ -613,6 +613,22 @@ static Outcome run_case(const std::string &cas) {
         if (!(w > 0)) return failo("element-mass-" + s, s + ": mass " + g(w), cas);
         if (z <= 86 && !agree(w, AW[z], 3)) return failo("element-mass-" + s, s + ": mass " + g(w) + " but the IUPAC standard atomic weight is " + g(AW[z]), cas);
         if (closest != s) return failo("element-mass-lookup-" + s, "getEleShortClosestInMass(getMass(" + s + ")) = " + closest, cas);
+        // tolerance ladder (seed8-C20): a tabulated mass is associated with its element at EVERY tolerance >= 0 (distance 0), and the
+        // yes/no answer isMassAssociatedWithElement agrees with "getEleShortClosestInMass does not throw" for every (mass, tolerance),
+        // in particular for masses about one tolerance away from the table value
+        for (double tol : {0.01, 1e-9, 0.0, 0.125, 0.5})
+          for (double off : {0.0, tol, -tol, 2 * tol}) {
+            double mq = w + off;
+            bool assoc = el.isMassAssociatedWithElement(mq, tol), found = true;
+            std::string nm;
+            try { nm = el.getEleShortClosestInMass(mq, tol); } catch (const std::exception &) { found = false; }
+            if (off == 0.0 && (!assoc || !found || nm != s))
+              return failo("element-mass-exact-not-associated-" + s, s + ": mass " + g(w) + " queried with tolerance " + g(tol) + ": isMassAssociatedWithElement=" + std::to_string(assoc) +
+                           ", getEleShortClosestInMass " + (found ? "= " + nm : std::string("throws")), cas);
+            if (assoc != found)
+              return failo("element-mass-association-disagrees-" + s, "mass " + g(mq) + " (" + s + " " + (off < 0 ? "-" : "+") + " " + g(std::fabs(off)) + "), tolerance " + g(tol) +
+                           ": isMassAssociatedWithElement=" + std::to_string(assoc) + " but getEleShortClosestInMass " + (found ? "returns " + nm : std::string("throws")), cas);
+          }
         o.extra = s + " mass " + g(w) + " (IUPAC " + g(z <= 86 ? AW[z] : 0) + ")"; o.cls = bsx::fnv("m" + s); return o;
       }
       if (c == "order") {  // masses increase with Z except the three known inversions
